@@ -291,7 +291,7 @@ Section Paused.
 End Paused.
 
 (* ==== Part B: a resumed trial's checkpoint was never deleted ======================= *)
-Definition is_res (e : event) : bool := match e with EResume _ | ECopy _ _ => true | _ => false end.
+Definition is_res (e : event) : bool := match e with EResume _ | ECopy _ _ | EClone _ _ => true | _ => false end.
 Definition nores (l : list event) : Prop := forall e, In e l -> is_res e = false.
 Lemma nores_nil : nores []. Proof. intros e []. Qed.
 Lemma nores_cons e l : is_res e = false -> nores l -> nores (e :: l).
@@ -302,10 +302,16 @@ Proof. intros Ha Hb x Hx. apply in_app_or in Hx as [H|H]; auto. Qed.
 Definition dstep (D : list Z) (e : event) : list Z := match e with EDelete j _ => j :: D | _ => D end.
 Definition dset (D : list Z) (l : list event) : list Z := fold_left dstep l D.
 
-Fixpoint rs_from (D : list Z) (l : list event) : Prop :=
+(* [cc]: also check clone sources at copy time (false for the pre-fix PBT, where that fails) *)
+Fixpoint rs_from (cc : bool) (D : list Z) (l : list event) : Prop :=
   match l with
   | [] => True
-  | e :: r => match e with EResume i => ~ In i D | ECopy j _ => ~ In j D | _ => True end /\ rs_from (dstep D e) r
+  | e :: r => match e with
+              | EResume i => ~ In i D
+              | ECopy j _ => if cc then ~ In j D else True
+              | EClone _ j => ~ In j D
+              | _ => True
+              end /\ rs_from cc (dstep D e) r
   end.
 
 Lemma dset_app D a b : dset D (a ++ b) = dset (dset D a) b.
@@ -325,19 +331,19 @@ Proof.
   destruct e; simpl; auto.
 Qed.
 
-Lemma rs_from_app a : forall D b, rs_from D (a ++ b) <-> rs_from D a /\ rs_from (dset D a) b.
+Lemma rs_from_app cc a : forall D b, rs_from cc D (a ++ b) <-> rs_from cc D a /\ rs_from cc (dset D a) b.
 Proof.
   induction a as [|e a IH]; intros D b; simpl; [tauto|]. rewrite IH. unfold dset. simpl. tauto.
 Qed.
 
-Lemma rs_from_nores l : forall D, nores l -> rs_from D l.
+Lemma rs_from_nores cc l : forall D, nores l -> rs_from cc D l.
 Proof.
   induction l as [|e l IH]; intros D H; simpl; [exact I|]. split.
   - assert (is_res e = false) by (apply H; now left). destruct e; try exact I; discriminate.
   - apply IH. intros x Hx. apply H. now right.
 Qed.
 
-Lemma rs_from_spec pre : forall D l i post, rs_from D l -> l = pre ++ EResume i :: post ->
+Lemma rs_from_spec cc pre : forall D l i post, rs_from cc D l -> l = pre ++ EResume i :: post ->
   ~ In i D /\ forall w, ~ In (EDelete i w) pre.
 Proof.
   induction pre as [|e pre IH]; intros D l i post H ->; simpl in H.
@@ -347,7 +353,7 @@ Proof.
     + intros w [Hw|Hw]; [|exact (H2 w Hw)]. subst e. simpl in H1. apply H1. now left.
 Qed.
 
-Lemma rs_from_spec_copy pre : forall D l j t post, rs_from D l -> l = pre ++ ECopy j t :: post ->
+Lemma rs_from_spec_copy pre : forall D l j t post, rs_from true D l -> l = pre ++ ECopy j t :: post ->
   ~ In j D /\ forall w, ~ In (EDelete j w) pre.
 Proof.
   induction pre as [|e pre IH]; intros D l j t post H ->; simpl in H.
@@ -357,8 +363,24 @@ Proof.
     + intros w [Hw|Hw]; [|exact (H2 w Hw)]. subst e. simpl in H1. apply H1. now left.
 Qed.
 
-Lemma nores_clone i cl : nores (clone_ev i cl).
-Proof. destruct cl; simpl; [apply nores_cons; [reflexivity|apply nores_nil] | apply nores_nil]. Qed.
+Lemma rs_from_spec_clone cc pre : forall D l i j post, rs_from cc D l -> l = pre ++ EClone i j :: post ->
+  ~ In j D /\ forall w, ~ In (EDelete j w) pre.
+Proof.
+  induction pre as [|e pre IH]; intros D l i j post H ->; simpl in H.
+  - split; [exact (proj1 H) | intros w []].
+  - destruct H as [_ H]. destruct (IH _ _ _ _ _ H eq_refl) as [H1 H2]. split.
+    + intro Hin. apply H1. destruct e; simpl; auto.
+    + intros w [Hw|Hw]; [|exact (H2 w Hw)]. subst e. simpl in H1. apply H1. now left.
+Qed.
+
+(* the events of one processed report: decision, optional clone marker, then backend calls *)
+Lemma rs_head cc D i d cl tl : (forall j, cl = Some j -> ~ In j D) -> nores tl ->
+  rs_from cc D (EDecision i d :: clone_ev i cl ++ tl).
+Proof.
+  intros Hc Ht. simpl. split; [exact I|]. destruct cl as [j|]; simpl.
+  - split; [now apply Hc|]. now apply rs_from_nores.
+  - now apply rs_from_nores.
+Qed.
 
 Lemma b_stop_ids c b i w : new_trial_id (fst (b_stop c b i w)) = new_trial_id b.
 Proof. unfold b_stop. destruct (delete_checkpoints c); reflexivity. Qed.
@@ -402,26 +424,33 @@ Section ResumeSafe.
   Variable sch : scheduler S R G.
   Variable c : cfg.
   Hypothesis Hspec : speculative c = false.
+  Variable cc : bool.   (* are clone sources checked at copy time? *)
   (* [needed s]: the trials whose checkpoint the scheduler may still ask for (running or
      possibly resumed later); [sinv n s]: scheduler invariant when n trials exist *)
   Variable needed : S -> list Z.
+  (* [active s]: the trials the scheduler expects reports from (its view of "running") *)
+  Variable active : S -> list Z.
   Variable sinv : Z -> S -> Prop.
   Hypothesis H_bound : forall n s, sinv n s -> forall i, In i (needed s) -> (0 <= i < n)%Z.
-  Hypothesis H_res : forall n s i r s' d cl, sinv n s -> on_result sch s i r = (s', d, cl) ->
-    sinv n s' /\ incl (needed s') (needed s) /\ (d = STOP -> ~ In i (needed s')).
+  Hypothesis H_res : forall n s i r s' d cl, sinv n s -> In i (active s) -> on_result sch s i r = (s', d, cl) ->
+    sinv n s' /\ incl (needed s') (needed s) /\ (d = STOP -> ~ In i (needed s')) /\
+    (forall j, cl = Some j -> In j (needed s)) /\
+    (forall x, In x (active s) -> x <> i \/ d = CONTINUE -> In x (active s')).
   Hypothesis H_sug : forall n s g s' sg, sinv n s -> suggest sch s n g = (s', sg) ->
     match sg with
-    | SNone => sinv n s' /\ incl (needed s') (needed s)
-    | SNew => sinv (n + 1)%Z s' /\ incl (needed s') (n :: needed s)
-    | SFrom j => sinv (n + 1)%Z s' /\ incl (needed s') (n :: needed s) /\ In j (needed s)
-    | SResume i => sinv n s' /\ incl (needed s') (needed s) /\ In i (needed s)
+    | SNone => sinv n s' /\ incl (needed s') (needed s) /\ incl (active s) (active s')
+    | SNew => sinv (n + 1)%Z s' /\ incl (needed s') (n :: needed s) /\ incl (n :: active s) (active s')
+    | SFrom j => sinv (n + 1)%Z s' /\ incl (needed s') (n :: needed s) /\ incl (n :: active s) (active s') /\
+                 (cc = true -> In j (needed s))
+    | SResume i => sinv n s' /\ incl (needed s') (needed s) /\ incl (i :: active s) (active s') /\ In i (needed s)
     end.
   Hypothesis H_rem : forall n s s' l, sinv n s -> removables sch s = (s', l) ->
-    sinv n s' /\ incl (needed s') (needed s) /\
+    sinv n s' /\ incl (needed s') (needed s) /\ incl (active s) (active s') /\
     forall i, In i l -> ~ In i (needed s') /\ (0 <= i < n)%Z.
 
   Hypothesis H_err : forall n s i, sinv n s ->
-    sinv n (on_error sch s i) /\ incl (needed (on_error sch s i)) (needed s).
+    sinv n (on_error sch s i) /\ incl (needed (on_error sch s i)) (needed s) /\
+    (forall x, In x (active s) -> x <> i -> In x (active (on_error sch s i))).
 
   Definition Inv (D : list Z) (n : Z) (s : S) : Prop :=
     sinv n s /\ (forall i, In i D -> (0 <= i < n)%Z) /\ (forall i, In i (needed s) -> ~ In i D).
@@ -435,34 +464,64 @@ Section ResumeSafe.
   Lemma on_error_fold_Inv D n : forall l s, Inv D n s -> Inv D n (fold_left (on_error sch) l s).
   Proof.
     induction l as [|i l IH]; intros s HI; simpl; [exact HI|]. apply IH.
-    destruct (H_err n s i (proj1 HI)) as [A B]. eapply Inv_step; eauto.
+    destruct (H_err n s i (proj1 HI)) as [A [B _]]. eapply Inv_step; eauto.
   Qed.
 
-  Lemma process_results_safe compl : forall rs s b done D s' b' done' ev,
-    Inv D (new_trial_id b) s ->
-    (forall i r, In (i, r) rs -> (0 <= i < new_trial_id b)%Z) ->
-    process_results sch c s b done compl rs = (s', b', done', ev) ->
-    new_trial_id b' = new_trial_id b /\ rs_from D ev /\ Inv (dset D ev) (new_trial_id b) s'.
+  Lemma on_error_fold_active D n x : forall l s, Inv D n s -> ~ In x l -> In x (active s) ->
+    In x (active (fold_left (on_error sch) l s)).
   Proof.
-    induction rs as [|[i r] rs IH]; intros s b done D s' b' done' ev HI Hb E; simpl in E.
+    induction l as [|i l IH]; intros s HI Hx Ha; simpl; [exact Ha|].
+    destruct (H_err n s i (proj1 HI)) as [A [B Cc]]. apply IH.
+    - eapply Inv_step; eauto.
+    - intros H. apply Hx. now right.
+    - apply Cc; [exact Ha|]. intros ->. apply Hx. now left.
+  Qed.
+
+  Lemma mem_Z_false_notin i l : mem_Z i l = false -> ~ In i l.
+  Proof.
+    induction l as [|y l IH]; simpl; [tauto|]. intros H [Hy|Hy].
+    - subst y. rewrite Z.eqb_refl in H. discriminate.
+    - apply orb_false_iff in H as [_ H]. exact (IH H Hy).
+  Qed.
+
+  (* [A] = running_trials_ids: every report comes from A; trials of A not yet stopped/paused in this
+     batch are active for the scheduler *)
+  Lemma process_results_safe compl (A : list Z) : forall rs s b done D s' b' done' ev,
+    Inv D (new_trial_id b) s ->
+    (forall i r, In (i, r) rs -> (0 <= i < new_trial_id b)%Z /\ In i A) ->
+    (forall x, In x A -> ~ In x done -> In x (active s)) ->
+    process_results sch c s b done compl rs = (s', b', done', ev) ->
+    new_trial_id b' = new_trial_id b /\ rs_from cc D ev /\ Inv (dset D ev) (new_trial_id b) s' /\
+    (forall x, In x A -> ~ In x done' -> In x (active s')).
+  Proof.
+    induction rs as [|[i r] rs IH]; intros s b done D s' b' done' ev HI Hb HA E; simpl in E.
     - injection E as <- <- <- <-. simpl. auto.
-    - assert (forall i r, In (i, r) rs -> (0 <= i < new_trial_id b)%Z) as Hb' by (intros; eapply Hb; right; eauto).
-      destruct (mem_Z i done); [eapply IH; eauto|].
+    - assert (forall i r, In (i, r) rs -> (0 <= i < new_trial_id b)%Z /\ In i A) as Hb' by (intros; eapply Hb; right; eauto).
+      destruct (mem_Z i done) eqn:Emd; [eapply IH; eauto|].
+      apply mem_Z_false_notin in Emd.
+      assert (In i (active s)) as Hia by (apply HA; [exact (proj2 (Hb i r (or_introl eq_refl)))|exact Emd]).
       destruct (on_result sch s i r) as [[s1 d] cl] eqn:Eo.
-      destruct (H_res _ _ _ _ _ _ _ (proj1 HI) Eo) as [Hs1 [Hinc Hstop]].
+      destruct (H_res _ _ _ _ _ _ _ (proj1 HI) Hia Eo) as [Hs1 [Hinc [Hstop [Hcl Hact]]]].
+      assert (forall j, cl = Some j -> ~ In j D) as HclD by (intros j Hj; apply (proj2 (proj2 HI)); now apply Hcl).
       assert (forall X b1 dn1 evs D1,
-                 nores X -> new_trial_id b1 = new_trial_id b -> dset D X = D1 -> Inv D1 (new_trial_id b) s1 ->
+                 rs_from cc D X -> new_trial_id b1 = new_trial_id b -> dset D X = D1 -> Inv D1 (new_trial_id b) s1 ->
+                 (dn1 = done /\ d = CONTINUE \/ dn1 = i :: done) ->
                  process_results sch c s1 b1 dn1 compl rs = (s', b', done', evs) ->
-                 new_trial_id b' = new_trial_id b /\ rs_from D (X ++ evs) /\ Inv (dset D (X ++ evs)) (new_trial_id b) s') as K.
-      { intros X b1 dn1 evs D1 HX Hid HD HI1 E1.
-        rewrite <- Hid in HI1, Hb'. destruct (IH _ _ _ _ _ _ _ _ HI1 Hb' E1) as [A [B C]].
-        rewrite Hid in *. split; [exact A|]. rewrite rs_from_app, dset_app, HD. split; [|exact C].
-        split; [now apply rs_from_nores | exact B]. }
+                 new_trial_id b' = new_trial_id b /\ rs_from cc D (X ++ evs) /\ Inv (dset D (X ++ evs)) (new_trial_id b) s' /\
+                 (forall x, In x A -> ~ In x done' -> In x (active s'))) as K.
+      { intros X b1 dn1 evs D1 HX Hid HD HI1 Hdn E1.
+        assert (forall x, In x A -> ~ In x dn1 -> In x (active s1)) as HA1.
+        { intros x Hx Hnd. destruct Hdn as [[-> ->] | ->].
+          - apply Hact; [apply HA; assumption | now right].
+          - apply Hact; [apply HA; [assumption|]; intros H; apply Hnd; now right | left; intros ->; apply Hnd; now left]. }
+        rewrite <- Hid in HI1, Hb'. destruct (IH _ _ _ _ _ _ _ _ HI1 Hb' HA1 E1) as [A0 [B [C Dd]]].
+        rewrite Hid in *. split; [exact A0|]. rewrite rs_from_app, dset_app, HD. split; [|split; [exact C|exact Dd]].
+        split; [exact HX | exact B]. }
       destruct d.
       + destruct (process_results sch c s1 b done compl rs) as [[[s2 b2] d2] evs] eqn:E1.
         injection E as <- <- <- <-.
         apply (K (EDecision i CONTINUE :: clone_ev i cl) b done evs D); auto.
-        * apply nores_cons; [reflexivity|apply nores_clone].
+        * rewrite <- (app_nil_r (clone_ev i cl)). apply rs_head; [exact HclD|apply nores_nil].
         * apply dset_nodel. apply nodel_cons; [reflexivity|apply nodel_clone].
         * eapply Inv_step; eauto.
       + destruct (process_results sch c s1 (set_status b i Paused) (i :: done) compl rs) as [[[s2 b2] d2] evs] eqn:E1.
@@ -472,8 +531,7 @@ Section ResumeSafe.
           by (simpl; rewrite <- app_assoc; reflexivity).
         rewrite EQ.
         apply (K _ (set_status b i Paused) (i :: done) evs D); auto.
-        * apply nores_cons; [reflexivity|]. apply nores_app; [apply nores_clone|].
-          apply nores_cons; [reflexivity|apply nores_nil].
+        * apply rs_head; [exact HclD|]. apply nores_cons; [reflexivity|apply nores_nil].
         * apply dset_nodel. apply nodel_cons; [reflexivity|]. apply nodel_app; [apply nodel_clone|].
           apply nodel_cons; [reflexivity|apply nodel_nil].
         * eapply Inv_step; eauto.
@@ -481,7 +539,7 @@ Section ResumeSafe.
         * destruct (process_results sch c s1 b (i :: done) compl rs) as [[[s2 b2] d2] evs] eqn:E1.
           injection E as <- <- <- <-.
           apply (K (EDecision i STOP :: clone_ev i cl) b (i :: done) evs D); auto.
-          -- apply nores_cons; [reflexivity|apply nores_clone].
+          -- rewrite <- (app_nil_r (clone_ev i cl)). apply rs_head; [exact HclD|apply nores_nil].
           -- apply dset_nodel. apply nodel_cons; [reflexivity|apply nodel_clone].
           -- eapply Inv_step; eauto.
         * destruct (b_stop c b i WStop) as [bs es] eqn:Es.
@@ -493,18 +551,16 @@ Section ResumeSafe.
             with ((EDecision i STOP :: clone_ev i cl ++ es) ++ evs) by (simpl; now rewrite <- app_assoc).
           destruct (delete_checkpoints c) eqn:Dc; subst es.
           -- apply (K _ bs (i :: done) evs (i :: D)); auto.
-             ++ apply nores_cons; [reflexivity|]. apply nores_app; [apply nores_clone|].
-                repeat (apply nores_cons; [reflexivity|]). apply nores_nil.
+             ++ apply rs_head; [exact HclD|]. repeat (apply nores_cons; [reflexivity|]). apply nores_nil.
              ++ change (EDecision i STOP :: clone_ev i cl ++ [EStop i; EDelete i WStop])
                   with ((EDecision i STOP :: clone_ev i cl) ++ [EStop i; EDelete i WStop]).
                 rewrite dset_app, (dset_nodel (EDecision i STOP :: clone_ev i cl)); [reflexivity|].
                 apply nodel_cons; [reflexivity|apply nodel_clone].
              ++ destruct HI as [_ [H2 H3]]. split; [exact Hs1|]. split.
-                ** intros x [<-|Hx]; [eapply Hb; left; reflexivity | auto].
+                ** intros x [<-|Hx]; [exact (proj1 (Hb i r (or_introl eq_refl))) | auto].
                 ** intros x Hx [<-|Hd]; [now apply Hstop | exact (H3 x (Hinc x Hx) Hd)].
           -- apply (K _ bs (i :: done) evs D); auto.
-             ++ apply nores_cons; [reflexivity|]. apply nores_app; [apply nores_clone|].
-                apply nores_cons; [reflexivity|apply nores_nil].
+             ++ apply rs_head; [exact HclD|]. apply nores_cons; [reflexivity|apply nores_nil].
              ++ apply dset_nodel. apply nodel_cons; [reflexivity|]. apply nodel_app; [apply nodel_clone|].
                 apply nodel_cons; [reflexivity|apply nodel_nil].
              ++ eapply Inv_step; eauto.
@@ -535,11 +591,12 @@ Section ResumeSafe.
   Definition bounded (n : Z) (l : list Z) : Prop := forall i, In i l -> (0 <= i < n)%Z.
 
   Lemma schedule_safe : forall gs s b run D s' b' run' ex er ev,
-    Inv D (new_trial_id b) s -> bounded (new_trial_id b) run ->
+    Inv D (new_trial_id b) s -> bounded (new_trial_id b) run -> incl run (active s) ->
     schedule sch s b run gs = (s', b', run', ex, er, ev) ->
-    rs_from D ev /\ dset D ev = D /\ Inv D (new_trial_id b') s' /\ bounded (new_trial_id b') run'.
+    rs_from cc D ev /\ dset D ev = D /\ Inv D (new_trial_id b') s' /\ bounded (new_trial_id b') run' /\
+    incl run' (active s').
   Proof.
-    induction gs as [|g gs IH]; intros s b run D s' b' run' ex er ev HI Hr E.
+    induction gs as [|g gs IH]; intros s b run D s' b' run' ex er ev HI Hr Hra E.
     - simpl in E. injection E as <- <- <- <- <- <-. simpl. auto.
     - assert (dset D ev = D) as Hd.
       { apply dset_nodel. pose proof (schedule_nodel sch (g :: gs) s b run) as Hn. now rewrite E in Hn. }
@@ -548,11 +605,15 @@ Section ResumeSafe.
       pose proof (H_sug _ _ _ _ _ (proj1 HI) Es) as Hs.
       destruct HI as [HI1 [HI2 HI3]].
       assert (forall f b1 e evs, b_start b f = (b1, e) ->
-                (sinv (new_trial_id b + 1)%Z s1 /\ incl (needed s1) (new_trial_id b :: needed s)) ->
-                match f with Some j => In j (needed s) | None => True end ->
+                (sinv (new_trial_id b + 1)%Z s1 /\ incl (needed s1) (new_trial_id b :: needed s) /\
+                 incl (new_trial_id b :: active s) (active s1)) ->
+                match f with Some j => cc = true -> In j (needed s) | None => True end ->
                 schedule sch s1 b1 (new_trial_id b :: run) gs = (s', b', run', ex, er, evs) ->
-                rs_from D (e ++ evs) /\ Inv D (new_trial_id b') s' /\ bounded (new_trial_id b') run') as K.
-      { intros f b1 e evs Eb [Hs1 Hinc] Hf E1.
+                rs_from cc D (e ++ evs) /\ Inv D (new_trial_id b') s' /\ bounded (new_trial_id b') run' /\
+                incl run' (active s')) as K.
+      { intros f b1 e evs Eb [Hs1 [Hinc Hacs]] Hf E1.
+        assert (incl (new_trial_id b :: run) (active s1)) as Hra'.
+        { intros x [<-|Hx]; apply Hacs; [now left | right; now apply Hra]. }
         pose proof (b_start_ids b f) as Hid. rewrite Eb in Hid. simpl in Hid.
         pose proof (b_start_events b f) as Hne. rewrite Eb in Hne. simpl in Hne.
         assert (Inv D (new_trial_id b1) s1) as HI'.
@@ -561,19 +622,21 @@ Section ResumeSafe.
           - exact (HI3 x Hx Hd'). }
         assert (bounded (new_trial_id b1) (new_trial_id b :: run)) as Hr'.
         { rewrite Hid. intros x [<-|Hx]; [unfold new_trial_id; lia | specialize (Hr x Hx); lia]. }
-        destruct (IH _ _ _ _ _ _ _ _ _ _ HI' Hr' E1) as [A [B [C Dd]]].
-        split; [|split; assumption]. rewrite rs_from_app. split.
-        - rewrite Hne. destruct f as [j|]; simpl; [|tauto]. split; [exact I|]. split; [exact (HI3 j Hf)|exact I].
+        destruct (IH _ _ _ _ _ _ _ _ _ _ HI' Hr' Hra' E1) as [A [B [C [Dd Ee]]]].
+        split; [|split; [assumption|split; assumption]]. rewrite rs_from_app. split.
+        - rewrite Hne. destruct f as [j|]; simpl; [|tauto]. split; [exact I|]. split; [|exact I].
+          destruct cc; [exact (HI3 j (Hf eq_refl)) | exact I].
         - rewrite dset_nodel; [exact A|]. pose proof (b_start_nodel b f) as Hn. now rewrite Eb in Hn. }
       destruct sg as [|j|i|].
       + destruct (b_start b None) as [b1 e] eqn:Eb.
         destruct (schedule sch s1 b1 (new_trial_id b :: run) gs) as [[[[[s2 b2] r2] ex2] er2] evs] eqn:E1.
-        injection E as <- <- <- <- <- <-. destruct (K None b1 e evs Eb Hs I E1) as [A [B C]]. auto.
+        injection E as <- <- <- <- <- <-. destruct (K None b1 e evs Eb Hs I E1) as [A [B [C Dd]]]. auto.
       + destruct (b_start b (Some j)) as [b1 e] eqn:Eb.
         destruct (schedule sch s1 b1 (new_trial_id b :: run) gs) as [[[[[s2 b2] r2] ex2] er2] evs] eqn:E1.
-        injection E as <- <- <- <- <- <-. destruct Hs as [Hs1 [Hs2 Hs3]].
-        destruct (K (Some j) b1 e evs Eb (conj Hs1 Hs2) Hs3 E1) as [A [B C]]. auto.
-      + destruct Hs as [Hs1 [Hinc Hin]].
+        injection E as <- <- <- <- <- <-. destruct Hs as [Hs1 [Hs2 [Hs3 Hs4]]].
+        destruct (K (Some j) b1 e evs Eb (conj Hs1 (conj Hs2 Hs3)) Hs4 E1) as [A [B [C Dd]]]. auto.
+      + destruct Hs as [Hs1 [Hinc [Hacs Hin]]].
+        assert (incl run (active s1)) as Hra1 by (intros x Hx; apply Hacs; right; now apply Hra).
         destruct (b_resume b i) as [[b1 e]|] eqn:Eb.
         * destruct (schedule sch s1 b1 (i :: run) gs) as [[[[[s2 b2] r2] ex2] er2] evs] eqn:E1.
           injection E as <- <- <- <- <- <-.
@@ -582,12 +645,15 @@ Section ResumeSafe.
           { rewrite Hid. split; [exact Hs1|]. split; [exact HI2|]. intros x Hx. apply HI3. now apply Hinc. }
           assert (bounded (new_trial_id b1) (i :: run)) as Hr'.
           { rewrite Hid. intros x [<-|Hx]; [exact Hbi | exact (Hr x Hx)]. }
-          destruct (IH _ _ _ _ _ _ _ _ _ _ HI' Hr' E1) as [A [B [C Dd]]].
+          assert (incl (i :: run) (active s1)) as Hra'.
+          { intros x [<-|Hx]; [apply Hacs; now left | now apply Hra1]. }
+          destruct (IH _ _ _ _ _ _ _ _ _ _ HI' Hr' Hra' E1) as [A [B [C [Dd Ee]]]].
           split; [|auto]. simpl. split; [exact (HI3 i Hin) | exact A].
-        * injection E as <- <- <- <- <- <-. simpl. split; [tauto|]. split; [reflexivity|]. split; [|exact Hr].
+        * injection E as <- <- <- <- <- <-. simpl. split; [tauto|]. split; [reflexivity|]. split; [|split; [exact Hr|exact Hra1]].
           split; [exact Hs1|]. split; [exact HI2|]. intros x Hx. apply HI3. now apply Hinc.
-      + destruct Hs as [Hs1 Hinc]. injection E as <- <- <- <- <- <-. simpl. split; [exact I|]. split; [reflexivity|].
-        split; [|exact Hr]. split; [exact Hs1|]. split; [exact HI2|]. intros x Hx. apply HI3. now apply Hinc.
+      + destruct Hs as [Hs1 [Hinc Hacs]]. injection E as <- <- <- <- <- <-. simpl. split; [exact I|]. split; [reflexivity|].
+        split; [|split; [exact Hr|intros x Hx; apply Hacs; now apply Hra]].
+        split; [exact Hs1|]. split; [exact HI2|]. intros x Hx. apply HI3. now apply Hinc.
   Qed.
 
   Lemma removable_events_safe : forall l b D b' ev, removable_events b l = (b', ev) ->
@@ -603,60 +669,73 @@ Section ResumeSafe.
 
   Lemma loop_end_safe s b choice D s' b' ev : Inv D (new_trial_id b) s ->
     loop_end sch c s b choice = (s', b', ev) ->
-    new_trial_id b' = new_trial_id b /\ rs_from D ev /\ Inv (dset D ev) (new_trial_id b) s'.
+    new_trial_id b' = new_trial_id b /\ rs_from cc D ev /\ Inv (dset D ev) (new_trial_id b) s' /\
+    incl (active s) (active s').
   Proof.
     intros HI E. unfold loop_end in E. rewrite Hspec in E.
     destruct (remove_callback c).
     - destruct (removables sch s) as [s1 l] eqn:Er.
-      destruct (H_rem _ _ _ _ (proj1 HI) Er) as [Hs1 [Hinc Hl]].
+      destruct (H_rem _ _ _ _ (proj1 HI) Er) as [Hs1 [Hinc [Hacs Hl]]].
       destruct (removable_events b l) as [b1 e] eqn:Ee. injection E as <- <- <-.
       destruct (removable_events_safe l b D b1 e Ee) as [A [B C]].
       split; [exact A|]. split; [now apply rs_from_nores|].
-      destruct HI as [_ [H2 H3]]. split; [exact Hs1|]. split.
+      destruct HI as [_ [H2 H3]]. split; [|exact Hacs]. split; [exact Hs1|]. split.
       + intros x Hx. destruct (C x Hx) as [H|H]; [exact (proj2 (Hl x H)) | exact (H2 x H)].
       + intros x Hx Hd. destruct (C x Hd) as [H|H]; [exact (proj1 (Hl x H) Hx) | exact (H3 x (Hinc x Hx) H)].
-    - injection E as <- <- <-. simpl. auto.
+    - injection E as <- <- <-. simpl. split; [reflexivity|]. split; [exact I|]. split; [exact HI|apply incl_refl].
   Qed.
 
   Definition InvT (D : list Z) (st : tstate S) : Prop :=
-    Inv D (new_trial_id (be st)) (sst st) /\ bounded (new_trial_id (be st)) (running st).
+    Inv D (new_trial_id (be st)) (sst st) /\ bounded (new_trial_id (be st)) (running st) /\
+    incl (running st) (active (sst st)).
 
   Lemma iteration_safe D st it st' ev er : InvT D st -> iteration sch c st it = (st', ev, er) ->
-    rs_from D ev /\ InvT (dset D ev) st'.
+    rs_from cc D ev /\ InvT (dset D ev) st'.
   Proof.
-    intros [HI Hr] E. unfold iteration in E.
+    intros [HI [Hr Hra]] E. unfold iteration in E.
     set (rs := filter (fun r => mem_Z (fst r) (running st)) (reports it)) in *.
     set (compl := filter (fun i => mem_Z i (running st)) (completed it)) in *.
     set (fl := filter (fun i => mem_Z i (running st)) (failed it)) in *.
-    assert (forall i r, In (i, r) rs -> (0 <= i < new_trial_id (mark_failed (mark_completed (be st) compl) fl))%Z) as Hb.
+    assert (forall i r, In (i, r) rs -> (0 <= i < new_trial_id (mark_failed (mark_completed (be st) compl) fl))%Z /\ In i (running st)) as Hb.
     { intros i r Hin. rewrite mark_failed_ids, mark_completed_ids. apply filter_In in Hin as [_ Hm]. simpl in Hm.
-      apply Hr. clear -Hm. induction (running st) as [|y l IHl]; simpl in *; [discriminate|].
-      apply orb_true_iff in Hm as [Hm|Hm]; [left; symmetry; now apply Z.eqb_eq | right; auto]. }
+      assert (In i (running st)) as Hir.
+      { clear -Hm. induction (running st) as [|y l IHl]; simpl in *; [discriminate|].
+        apply orb_true_iff in Hm as [Hm|Hm]; [left; symmetry; now apply Z.eqb_eq | right; auto]. }
+      split; [exact (Hr i Hir)|exact Hir]. }
+    assert (forall x, In x (running st) -> ~ In x [] -> In x (active (sst st))) as HA0 by (intros x Hx _; now apply Hra).
     rewrite <- (mark_completed_ids compl), <- (mark_failed_ids fl) in HI.
     destruct (process_results sch c (sst st) (mark_failed (mark_completed (be st) compl) fl) [] compl rs) as [[[s1 b1] done] ev1] eqn:E1.
-    destruct (process_results_safe compl rs _ _ _ D _ _ _ _ HI Hb E1) as [Hid1 [Hrs1 HI1]].
+    destruct (process_results_safe compl (running st) rs _ _ _ D _ _ _ _ HI Hb HA0 E1) as [Hid1 [Hrs1 [HI1 HA1]]].
     rewrite <- Hid1 in HI1.
+    set (run1 := filter (fun i => negb (mem_Z i done) && negb (mem_Z i compl) && negb (mem_Z i fl)) (running st)) in *.
+    assert (incl run1 (active (fold_left (on_error sch) (filter (fun i => negb (mem_Z i done)) fl) s1))) as Hra1.
+    { intros x Hx. apply filter_In in Hx as [Hx Hf]. apply andb_true_iff in Hf as [Hf Hf3]. apply andb_true_iff in Hf as [Hf1 Hf2].
+      apply negb_true_iff in Hf1, Hf3.
+      apply (on_error_fold_active _ _ x _ _ HI1).
+      - intros Hin. apply filter_In in Hin as [Hin _]. exact (mem_Z_false_notin _ _ Hf3 Hin).
+      - apply HA1; [exact Hx | exact (mem_Z_false_notin _ _ Hf1)]. }
     apply (on_error_fold_Inv _ _ (filter (fun i => negb (mem_Z i done)) fl)) in HI1.
     set (s1' := fold_left (on_error sch) (filter (fun i => negb (mem_Z i done)) fl) s1) in *.
-    set (run1 := filter (fun i => negb (mem_Z i done) && negb (mem_Z i compl) && negb (mem_Z i fl)) (running st)) in *.
     assert (bounded (new_trial_id b1) run1) as Hr1.
     { intros x Hx. apply filter_In in Hx as [Hx _]. rewrite Hid1, mark_failed_ids, mark_completed_ids. exact (Hr x Hx). }
     destruct (exhausted st).
     - destruct (loop_end sch c s1' b1 (spec_choice it)) as [[s3 b3] ev3] eqn:E3.
       injection E as <- <- <-.
-      destruct (loop_end_safe _ _ _ _ _ _ _ HI1 E3) as [Hid3 [Hrs3 HI3]].
-      rewrite rs_from_app, dset_app. split; [tauto|]. split; simpl; rewrite Hid3; assumption.
+      destruct (loop_end_safe _ _ _ _ _ _ _ HI1 E3) as [Hid3 [Hrs3 [HI3 Hac3]]].
+      rewrite rs_from_app, dset_app. split; [tauto|]. split; [|split]; simpl; try (rewrite Hid3; assumption).
+      intros x Hx. apply Hac3. now apply Hra1.
     - destruct (schedule sch s1' b1 run1 (sugg it)) as [[[[[s2 b2] run2] ex] er2] ev2] eqn:E2.
-      destruct (schedule_safe _ _ _ _ _ _ _ _ _ _ _ HI1 Hr1 E2) as [Hrs2 [Hd2 [HI2 Hr2]]].
+      destruct (schedule_safe _ _ _ _ _ _ _ _ _ _ _ HI1 Hr1 Hra1 E2) as [Hrs2 [Hd2 [HI2 [Hr2 Hra2]]]].
       destruct er2.
-      + injection E as <- <- <-. rewrite rs_from_app, dset_app, Hd2. split; [tauto|]. split; assumption.
+      + injection E as <- <- <-. rewrite rs_from_app, dset_app, Hd2. split; [tauto|]. split; [|split]; assumption.
       + destruct (loop_end sch c s2 b2 (spec_choice it)) as [[s3 b3] ev3] eqn:E3.
         injection E as <- <- <-.
-        destruct (loop_end_safe _ _ _ _ _ _ _ HI2 E3) as [Hid3 [Hrs3 HI3]].
-        rewrite !rs_from_app, !dset_app, Hd2. split; [tauto|]. split; simpl; rewrite Hid3; assumption.
+        destruct (loop_end_safe _ _ _ _ _ _ _ HI2 E3) as [Hid3 [Hrs3 [HI3 Hac3]]].
+        rewrite !rs_from_app, !dset_app, Hd2. split; [tauto|]. split; [|split]; simpl; try (rewrite Hid3; assumption).
+        intros x Hx. apply Hac3. now apply Hra2.
   Qed.
 
-  Lemma run_safe : forall its D st, InvT D st -> rs_from D (run sch c st its).
+  Lemma run_safe : forall its D st, InvT D st -> rs_from cc D (run sch c st its).
   Proof.
     induction its as [|it its IH]; intros D st HI; cbn [run].
     - apply rs_from_nores, finish_nores.
@@ -672,18 +751,29 @@ Section ResumeSafe.
   Proof.
     intros s0 its pre i post H0 E.
     assert (InvT [] (init s0)) as HI.
-    { split; [|intros x []]. split; [exact H0|]. split; [intros x []|intros x _ []]. }
-    exact (proj2 (rs_from_spec pre [] _ i post (run_safe its [] _ HI) E)).
+    { split; [|split; intros x []]. split; [exact H0|]. split; [intros x []|intros x _ []]. }
+    exact (proj2 (rs_from_spec cc pre [] _ i post (run_safe its [] _ HI) E)).
   Qed.
 
-  Theorem copy_has_checkpoint : forall s0 its pre j t post, sinv 0%Z s0 ->
+  Theorem clone_source_alive_at_decision : forall s0 its pre i j post, sinv 0%Z s0 ->
+    run sch c (init s0) its = pre ++ EClone i j :: post ->
+    forall w, ~ In (EDelete j w) pre.
+  Proof.
+    intros s0 its pre i j post H0 E.
+    assert (InvT [] (init s0)) as HI.
+    { split; [|split; intros x []]. split; [exact H0|]. split; [intros x []|intros x _ []]. }
+    exact (proj2 (rs_from_spec_clone cc pre [] _ i j post (run_safe its [] _ HI) E)).
+  Qed.
+
+  Theorem copy_has_checkpoint : cc = true -> forall s0 its pre j t post, sinv 0%Z s0 ->
     run sch c (init s0) its = pre ++ ECopy j t :: post ->
     forall w, ~ In (EDelete j w) pre.
   Proof.
-    intros s0 its pre j t post H0 E.
+    intros Hcc s0 its pre j t post H0 E.
     assert (InvT [] (init s0)) as HI.
-    { split; [|intros x []]. split; [exact H0|]. split; [intros x []|intros x _ []]. }
-    exact (proj2 (rs_from_spec_copy pre [] _ j t post (run_safe its [] _ HI) E)).
+    { split; [|split; intros x []]. split; [exact H0|]. split; [intros x []|intros x _ []]. }
+    pose proof (run_safe its [] _ HI) as Hrun. rewrite Hcc in Hrun.
+    exact (proj2 (rs_from_spec_copy pre [] _ j t post Hrun E)).
   Qed.
 End ResumeSafe.
 
@@ -878,25 +968,32 @@ Definition promo_inv (n : Z) (s : promo) : Prop :=
 Lemma promo_inv_incl n s s1 : promo_inv n s -> incl (promo_needed s1) (promo_needed s) -> promo_inv n s1.
 Proof. intros [H0 H] Hi. split; [exact H0|]. intros x Hx. apply H. now apply Hi. Qed.
 
-Lemma promo_H_res : forall n s i r s' d cl, promo_inv n s -> on_result promo_sched s i r = (s', d, cl) ->
-  promo_inv n s' /\ incl (promo_needed s') (promo_needed s) /\ (d = STOP -> ~ In i (promo_needed s')).
+Lemma promo_H_res : forall n s i r s' d cl, promo_inv n s -> In i (p_active s) ->
+  on_result promo_sched s i r = (s', d, cl) ->
+  promo_inv n s' /\ incl (promo_needed s') (promo_needed s) /\ (d = STOP -> ~ In i (promo_needed s')) /\
+  (forall j, cl = Some j -> In j (promo_needed s)) /\
+  (forall x, In x (p_active s) -> x <> i \/ d = CONTINUE -> In x (p_active s')).
 Proof.
-  intros n s i r s' d cl Hinv E. simpl in E. unfold promo_on_result in E.
-  destruct (mem_Z i (p_active s)) eqn:Em.
-  - apply mem_Z_In in Em.
-    destruct r; injection E as <- <- <-.
-    + split; [exact Hinv|]. split; [apply incl_refl|discriminate].
-    + assert (incl (promo_needed {| p_active := remove_Z i (p_active s); p_paused := i :: p_paused s |}) (promo_needed s)) as Hi.
-      { intros x Hx. unfold promo_needed in *. simpl in Hx. apply in_or_app.
-        destruct Hx as [<-|Hx]; [now right|]. apply in_app_or in Hx as [Hx|Hx]; [now left|].
-        apply remove_Z_In in Hx. right; tauto. }
-      split; [eapply promo_inv_incl; eauto|]. split; [exact Hi|discriminate].
-    + assert (incl (promo_needed {| p_active := remove_Z i (p_active s); p_paused := remove_Z i (p_paused s) |}) (promo_needed s)) as Hi.
-      { intros x Hx. unfold promo_needed in *. simpl in Hx. apply in_or_app.
-        apply in_app_or in Hx as [Hx|Hx]; apply remove_Z_In in Hx; tauto. }
-      split; [eapply promo_inv_incl; eauto|]. split; [exact Hi|]. intros _ Hx. unfold promo_needed in Hx. simpl in Hx.
-      apply in_app_or in Hx as [Hx|Hx]; apply remove_Z_In in Hx; tauto.
-  - injection E as <- <- <-. split; [exact Hinv|]. split; [apply incl_refl|discriminate].
+  intros n s i r s' d cl Hinv Hia E. simpl in E. unfold promo_on_result in E.
+  assert (forall j : Z, @None Z = Some j -> In j (promo_needed s)) as HN by discriminate.
+  apply mem_Z_In in Hia. rewrite Hia in E. apply mem_Z_In in Hia.
+  assert (forall x, In x (p_active s) -> x <> i \/ PAUSE = CONTINUE -> In x (remove_Z i (p_active s))) as HP.
+  { intros x Hx [Hn|Hn]; [|discriminate]. apply remove_Z_In. tauto. }
+  assert (forall x, In x (p_active s) -> x <> i \/ STOP = CONTINUE -> In x (remove_Z i (p_active s))) as HS.
+  { intros x Hx [Hn|Hn]; [|discriminate]. apply remove_Z_In. tauto. }
+  destruct r; injection E as <- <- <-.
+  - split; [exact Hinv|]. split; [apply incl_refl|]. split; [discriminate|]. split; [exact HN|auto].
+  - assert (incl (promo_needed {| p_active := remove_Z i (p_active s); p_paused := i :: p_paused s |}) (promo_needed s)) as Hi.
+    { intros x Hx. unfold promo_needed in *. simpl in Hx. apply in_or_app.
+      destruct Hx as [<-|Hx]; [now right|]. apply in_app_or in Hx as [Hx|Hx]; [now left|].
+      apply remove_Z_In in Hx. right; tauto. }
+    split; [eapply promo_inv_incl; eauto|]. split; [exact Hi|]. split; [discriminate|]. split; [exact HN|exact HP].
+  - assert (incl (promo_needed {| p_active := remove_Z i (p_active s); p_paused := remove_Z i (p_paused s) |}) (promo_needed s)) as Hi.
+    { intros x Hx. unfold promo_needed in *. simpl in Hx. apply in_or_app.
+      apply in_app_or in Hx as [Hx|Hx]; apply remove_Z_In in Hx; tauto. }
+    split; [eapply promo_inv_incl; eauto|]. split; [exact Hi|]. split; [|split; [exact HN|exact HS]].
+    intros _ Hx. unfold promo_needed in Hx. simpl in Hx.
+    apply in_app_or in Hx as [Hx|Hx]; apply remove_Z_In in Hx; tauto.
 Qed.
 
 Lemma promo_new n s : promo_inv n s ->
@@ -913,38 +1010,43 @@ Qed.
 
 Lemma promo_H_sug : forall n s g s' sg, promo_inv n s -> suggest promo_sched s n g = (s', sg) ->
   match sg with
-  | SNone => promo_inv n s' /\ incl (promo_needed s') (promo_needed s)
-  | SNew => promo_inv (n + 1)%Z s' /\ incl (promo_needed s') (n :: promo_needed s)
-  | SFrom j => promo_inv (n + 1)%Z s' /\ incl (promo_needed s') (n :: promo_needed s) /\ In j (promo_needed s)
-  | SResume i => promo_inv n s' /\ incl (promo_needed s') (promo_needed s) /\ In i (promo_needed s)
+  | SNone => promo_inv n s' /\ incl (promo_needed s') (promo_needed s) /\ incl (p_active s) (p_active s')
+  | SNew => promo_inv (n + 1)%Z s' /\ incl (promo_needed s') (n :: promo_needed s) /\ incl (n :: p_active s) (p_active s')
+  | SFrom j => promo_inv (n + 1)%Z s' /\ incl (promo_needed s') (n :: promo_needed s) /\ incl (n :: p_active s) (p_active s') /\
+               (true = true -> In j (promo_needed s))
+  | SResume i => promo_inv n s' /\ incl (promo_needed s') (promo_needed s) /\ incl (i :: p_active s) (p_active s') /\
+                 In i (promo_needed s)
   end.
 Proof.
   intros n s g s' sg Hinv E. simpl in E. unfold promo_suggest in E.
   destruct g as [i|]; [destruct (mem_Z i (p_paused s)) eqn:Em|]; injection E as <- <-;
-    try (now apply promo_new).
+    try (destruct (promo_new n s Hinv) as [A B]; split; [exact A|]; split; [exact B|apply incl_refl]).
   apply mem_Z_In in Em.
   assert (incl (promo_needed {| p_active := i :: p_active s; p_paused := remove_Z i (p_paused s) |}) (promo_needed s)) as Hi.
   { intros x Hx. unfold promo_needed in *. simpl in Hx. apply in_or_app.
     apply in_app_or in Hx as [Hx|[<-|Hx]]; [apply remove_Z_In in Hx; tauto | now left | now right]. }
-  split; [eapply promo_inv_incl; eauto|]. split; [exact Hi|]. unfold promo_needed. apply in_or_app. now left.
+  split; [eapply promo_inv_incl; eauto|]. split; [exact Hi|]. split; [apply incl_refl|].
+  unfold promo_needed. apply in_or_app. now left.
 Qed.
 
 Lemma promo_H_rem : forall n s s' l, promo_inv n s -> removables promo_sched s = (s', l) ->
-  promo_inv n s' /\ incl (promo_needed s') (promo_needed s) /\
+  promo_inv n s' /\ incl (promo_needed s') (promo_needed s) /\ incl (p_active s) (p_active s') /\
   forall i, In i l -> ~ In i (promo_needed s') /\ (0 <= i < n)%Z.
 Proof.
   intros n s s' l Hinv E. simpl in E. injection E as <- <-.
-  split; [exact Hinv|]. split; [apply incl_refl|]. intros i [].
+  split; [exact Hinv|]. split; [apply incl_refl|]. split; [apply incl_refl|]. intros i [].
 Qed.
 
 Lemma promo_H_err : forall n s i, promo_inv n s ->
-  promo_inv n (on_error promo_sched s i) /\ incl (promo_needed (on_error promo_sched s i)) (promo_needed s).
+  promo_inv n (on_error promo_sched s i) /\ incl (promo_needed (on_error promo_sched s i)) (promo_needed s) /\
+  (forall x, In x (p_active s) -> x <> i -> In x (p_active (on_error promo_sched s i))).
 Proof.
   intros n s i Hinv. simpl.
   assert (incl (promo_needed {| p_active := remove_Z i (p_active s); p_paused := p_paused s |}) (promo_needed s)) as Hi.
   { intros x Hx. unfold promo_needed in *. simpl in Hx. apply in_or_app.
     apply in_app_or in Hx as [Hx|Hx]; [now left|]. apply remove_Z_In in Hx. right; tauto. }
-  split; [eapply promo_inv_incl; eauto | exact Hi].
+  split; [eapply promo_inv_incl; eauto|]. split; [exact Hi|].
+  intros x Hx Hn. apply remove_Z_In. tauto.
 Qed.
 
 Theorem promo_resume_has_checkpoint : forall c its pre i post, speculative c = false ->
@@ -952,7 +1054,7 @@ Theorem promo_resume_has_checkpoint : forall c its pre i post, speculative c = f
   forall w, ~ In (EDelete i w) pre.
 Proof.
   intros c its pre i post Hs E.
-  apply (resume_has_checkpoint promo_sched c Hs promo_needed promo_inv promo_H_res promo_H_sug promo_H_rem
+  apply (resume_has_checkpoint promo_sched c Hs true promo_needed p_active promo_inv promo_H_res promo_H_sug promo_H_rem
            promo_H_err promo0 its pre i post); [|exact E].
   split; [lia|]. intros x [].
 Qed.
@@ -1061,38 +1163,72 @@ Lemma pbt_inv_ids n s tr : pbt_inv n s -> map pt_id tr = map pt_id (pb_trials s)
   forall st, pbt_inv n {| pb_trials := tr; pb_stack := st |}.
 Proof. intros [H0 [H1 H2]] E st. unfold pbt_inv. simpl. rewrite E. auto. Qed.
 
-Lemma pbt_H_res p : forall n s i r s' d cl, pbt_inv n s -> on_result (pbt_sched p) s i r = (s', d, cl) ->
-  pbt_inv n s' /\ incl (pbt_needed s') (pbt_needed s) /\ (d = STOP -> ~ In i (pbt_needed s')).
+Definition pbt_active (s : pbt) : list Z := map pt_id (pb_trials s).
+
+Lemma pbt_H_res0 fx p : forall n s i r s' d cl, pbt_inv n s -> on_result (pbt_sched_gen fx p) s i r = (s', d, cl) ->
+  pbt_inv n s' /\ incl (pbt_needed s') (pbt_needed s) /\ (d = STOP -> ~ In i (pbt_needed s')) /\
+  (forall j, cl = Some j -> In j (pbt_needed s)).
 Proof.
   intros n s i [[cost score] choice] s' d cl Hinv E. simpl in E. unfold pbt_on_result in E.
+  assert (forall j : Z, @None Z = Some j -> In j (pbt_needed s)) as HN by discriminate.
   destruct (pbt_find (pb_trials s) i) as [t|] eqn:Ef.
-  2:{ injection E as <- <- <-. split; [exact Hinv|]. split; [apply incl_refl|discriminate]. }
+  2:{ injection E as <- <- <-. split; [exact Hinv|]. split; [apply incl_refl|]. split; [discriminate|exact HN]. }
   set (fstop := fun t0 : pbt_trial => {| pt_id := pt_id t0; pt_score := pt_score t0; pt_last := pt_last t0; pt_stopped := true |}) in *.
   set (fsc := fun t0 : pbt_trial => {| pt_id := pt_id t0; pt_score := Some score; pt_last := cost; pt_stopped := pt_stopped t0 |}) in *.
   assert (forall t0, pt_id (fstop t0) = pt_id t0) as Hid1 by reflexivity.
   assert (forall t0, pt_id (fsc t0) = pt_id t0) as Hid2 by reflexivity.
   pose proof Hinv as [H0 [H1 H2]].
   destruct (Qleb (pp_max_t p) cost).
-  - injection E as <- <- <-. split; [|split].
+  - injection E as <- <- <-. split; [|split; [|split]].
     + apply (pbt_inv_ids n s); [exact Hinv | now apply pbt_update_ids].
     + apply (pbt_update_live (pb_trials s) i fstop Hid1). reflexivity.
     + intros _. apply (pbt_update_stop_dead (pb_trials s) i fstop Hid1); [reflexivity|exact H2].
+    + exact HN.
   - destruct (Qltb (cost - pt_last t) (pp_interval p)).
-    + injection E as <- <- <-. split; [exact Hinv|]. split; [apply incl_refl|discriminate].
+    + injection E as <- <- <-. split; [exact Hinv|]. split; [apply incl_refl|]. split; [discriminate|exact HN].
     + set (tr1 := pbt_update (pb_trials s) i fsc) in *.
       assert (map pt_id tr1 = map pt_id (pb_trials s)) as Eid by (now apply pbt_update_ids).
       assert (incl (live tr1) (live (pb_trials s))) as Hl1
         by (apply (pbt_update_live (pb_trials s) i fsc Hid2); intros t0 Ht; exact Ht).
-      destruct (quantiles (pp_qf p) tr1) as [lower upper].
+      pose proof (quantiles_upper_live (pp_qf p) tr1) as Hup.
+      destruct (quantiles (pp_qf p) tr1) as [lower upper]. simpl in Hup.
+      assert (pbt_inv n {| pb_trials := tr1; pb_stack := pb_stack s |}) as Hinv1
+        by (apply (pbt_inv_ids n s); [exact Hinv | exact Eid]).
       destruct (mem_Z i lower).
-      * injection E as <- <- <-. split; [|split].
-        -- apply (pbt_inv_ids n s); [exact Hinv|]. rewrite pbt_update_ids; [exact Eid|exact Hid1].
-        -- eapply incl_tran; [|exact Hl1]. apply (pbt_update_live tr1 i fstop Hid1). reflexivity.
-        -- intros _. apply (pbt_update_stop_dead tr1 i fstop Hid1); [reflexivity|]. now rewrite Eid.
-      * injection E as <- <- <-. split; [|split].
-        -- apply (pbt_inv_ids n s); [exact Hinv | exact Eid].
-        -- exact Hl1.
-        -- discriminate.
+      * destruct upper as [|u upper].
+        -- injection E as <- <- <-. split; [exact Hinv1|]. split; [exact Hl1|]. split; [discriminate|exact HN].
+        -- injection E as <- <- <-. split; [|split; [|split]].
+           ++ apply (pbt_inv_ids n s); [exact Hinv|]. rewrite pbt_update_ids; [exact Eid|exact Hid1].
+           ++ eapply incl_tran; [|exact Hl1]. apply (pbt_update_live tr1 i fstop Hid1). reflexivity.
+           ++ intros _. apply (pbt_update_stop_dead tr1 i fstop Hid1); [reflexivity|]. now rewrite Eid.
+           ++ intros j Hj. injection Hj as <-. apply Hl1, Hup.
+              match goal with |- In (if ?cnd then _ else _) _ => destruct cnd eqn:Em end; [|now left].
+              apply (mem_Z_In choice (u :: upper)). exact Em.
+      * injection E as <- <- <-. split; [exact Hinv1|]. split; [exact Hl1|]. split; [discriminate|exact HN].
+Qed.
+
+Lemma pbt_on_result_ids p s i r s' d cl : pbt_on_result p s i r = (s', d, cl) ->
+  map pt_id (pb_trials s') = map pt_id (pb_trials s).
+Proof.
+  destruct r as [[cost score] choice]. unfold pbt_on_result.
+  destruct (pbt_find (pb_trials s) i); [|intros E; injection E as <- _ _; reflexivity].
+  destruct (Qleb (pp_max_t p) cost); [intros E; injection E as <- _ _; simpl; now apply pbt_update_ids|].
+  destruct (Qltb _ _); [intros E; injection E as <- _ _; reflexivity|].
+  destruct (quantiles _ _) as [lower upper].
+  destruct (mem_Z i lower); [|intros E; injection E as <- _ _; simpl; now apply pbt_update_ids].
+  destruct upper; intros E; injection E as <- _ _; simpl; [now apply pbt_update_ids|].
+  rewrite pbt_update_ids; [now apply pbt_update_ids | reflexivity].
+Qed.
+
+Lemma pbt_H_res fx p : forall n s i r s' d cl, pbt_inv n s -> In i (pbt_active s) ->
+  on_result (pbt_sched_gen fx p) s i r = (s', d, cl) ->
+  pbt_inv n s' /\ incl (pbt_needed s') (pbt_needed s) /\ (d = STOP -> ~ In i (pbt_needed s')) /\
+  (forall j, cl = Some j -> In j (pbt_needed s)) /\
+  (forall x, In x (pbt_active s) -> x <> i \/ d = CONTINUE -> In x (pbt_active s')).
+Proof.
+  intros n s i r s' d cl Hinv _ E. destruct (pbt_H_res0 fx p n s i r s' d cl Hinv E) as [A [B [C Dd]]].
+  repeat (split; [assumption|]). intros x Hx _. unfold pbt_active. simpl in E.
+  now rewrite (pbt_on_result_ids p s i r s' d cl E).
 Qed.
 
 Lemma NoDup_snoc {A} (l : list A) a : NoDup l -> ~ In a l -> NoDup (l ++ [a]).
@@ -1124,7 +1260,7 @@ Lemma pbt_H_sug p : forall n s g s' sg, pbt_inv n s -> suggest (pbt_sched p) s n
   match sg with
   | SNone => pbt_inv n s' /\ incl (pbt_needed s') (pbt_needed s)
   | SNew => pbt_inv (n + 1)%Z s' /\ incl (pbt_needed s') (n :: pbt_needed s)
-  | SFrom j => pbt_inv (n + 1)%Z s' /\ incl (pbt_needed s') (n :: pbt_needed s) /\ In j (pbt_needed s)
+  | SFrom j => pbt_inv (n + 1)%Z s' /\ incl (pbt_needed s') (n :: pbt_needed s) /\ (true = true -> In j (pbt_needed s))
   | SResume i => pbt_inv n s' /\ incl (pbt_needed s') (pbt_needed s) /\ In i (pbt_needed s)
   end.
 Proof.
@@ -1135,10 +1271,10 @@ Proof.
     + pose proof (quantiles_upper_live (pp_qf p) (pb_trials s)) as Hu.
       destruct (snd (quantiles (pp_qf p) (pb_trials s))) as [|u upper].
       * injection E as <- <-. exact (pbt_new n s st Hinv).
-      * injection E as <- <-. destruct (pbt_new n s st Hinv) as [A B]. split; [exact A|]. split; [exact B|].
+      * injection E as <- <-. destruct (pbt_new n s st Hinv) as [A B]. split; [exact A|]. split; [exact B|]. intros _.
         apply Hu. match goal with |- In (if ?cnd then _ else _) _ => destruct cnd eqn:Em end; [|now left].
         apply (mem_Z_In g (u :: upper)). exact Em.
-    + injection E as <- <-. destruct (pbt_new n s st Hinv) as [A B]. split; [exact A|]. split; [exact B|].
+    + injection E as <- <-. destruct (pbt_new n s st Hinv) as [A B]. split; [exact A|]. split; [exact B|]. intros _.
       unfold pbt_stopped in Es. destruct (pbt_find (pb_trials s) j) as [t|] eqn:Ef; [|discriminate].
       destruct (pbt_find_In _ _ _ Ef) as [Hin <-]. unfold pbt_needed. apply in_map.
       apply filter_In. split; [exact Hin|]. now rewrite Es.
@@ -1157,8 +1293,8 @@ Theorem pbt_clone_source_alive : forall p c its pre j t post, speculative c = fa
   forall w, ~ In (EDelete j w) pre.
 Proof.
   intros p c its pre j t post Hs E.
-  apply (copy_has_checkpoint (pbt_sched p) c Hs pbt_needed pbt_inv (pbt_H_res p) (pbt_H_sug p) (pbt_H_rem p)
-           (fun n s i H => conj H (incl_refl _)) pbt0 its pre j t post); [|exact E].
+  apply (copy_has_checkpoint (pbt_sched p) c Hs true pbt_needed pbt_inv (pbt_H_res true p) (pbt_H_sug p) (pbt_H_rem p)
+           (fun n s i H => conj H (incl_refl _)) eq_refl pbt0 its pre j t post); [|exact E].
   split; [lia|]. split; [intros x []|constructor].
 Qed.
 
@@ -1224,4 +1360,270 @@ Proof.
   - destruct HA as [HA _]. congruence.
   - congruence.
   - destruct HA as [_ HA]. apply Hend. apply in_or_app. now left.
+Qed.
+
+(* ==== PBT before the fix: exactly when a clone is started from a deleted checkpoint ==== *)
+Lemma pbt_H_sug_unfixed p : forall n s g s' sg, pbt_inv n s -> suggest (pbt_sched_unfixed p) s n g = (s', sg) ->
+  match sg with
+  | SNone => pbt_inv n s' /\ incl (pbt_needed s') (pbt_needed s)
+  | SNew => pbt_inv (n + 1)%Z s' /\ incl (pbt_needed s') (n :: pbt_needed s)
+  | SFrom j => pbt_inv (n + 1)%Z s' /\ incl (pbt_needed s') (n :: pbt_needed s) /\ (false = true -> In j (pbt_needed s))
+  | SResume i => pbt_inv n s' /\ incl (pbt_needed s') (pbt_needed s) /\ In i (pbt_needed s)
+  end.
+Proof.
+  intros n s g s' sg Hinv E. simpl in E. unfold pbt_suggest in E.
+  destruct (pb_stack s) as [|j st]; simpl in E; injection E as <- <-.
+  - exact (pbt_new n s [] Hinv).
+  - destruct (pbt_new n s st Hinv) as [A B]. split; [exact A|]. split; [exact B|discriminate].
+Qed.
+
+(* (a) when the clone decision is taken, the chosen source's checkpoint has never been deleted *)
+Theorem pbt_unfixed_source_alive_at_decision : forall p c its pre i j post, speculative c = false ->
+  run (pbt_sched_unfixed p) c (init pbt0) its = pre ++ EClone i j :: post ->
+  forall w, ~ In (EDelete j w) pre.
+Proof.
+  intros p c its pre i j post Hs E.
+  apply (clone_source_alive_at_decision (pbt_sched_unfixed p) c Hs false pbt_needed pbt_inv (pbt_H_res false p)
+           (pbt_H_sug_unfixed p) (pbt_H_rem p) (fun n s i H => conj H (incl_refl _)) pbt0 its pre i j post); [|exact E].
+  split; [lia|]. split; [intros x []|constructor].
+Qed.
+
+(* (b) stack discipline: a clone is only started from a trial pushed by an earlier clone decision *)
+Definition cstep (C : list Z) (e : event) : list Z := match e with EClone _ j => j :: C | _ => C end.
+Definition cset (C : list Z) (l : list event) : list Z := fold_left cstep l C.
+Fixpoint cp_from (C : list Z) (l : list event) : Prop :=
+  match l with
+  | [] => True
+  | e :: r => match e with ECopy j _ => In j C | _ => True end /\ cp_from (cstep C e) r
+  end.
+
+Lemma cset_app C a b : cset C (a ++ b) = cset (cset C a) b.
+Proof. unfold cset. apply fold_left_app. Qed.
+
+Lemma cp_from_app a : forall C b, cp_from C (a ++ b) <-> cp_from C a /\ cp_from (cset C a) b.
+Proof. induction a as [|e a IH]; intros C b; simpl; [tauto|]. rewrite IH. unfold cset. simpl. tauto. Qed.
+
+Lemma nores_cp l : forall C, nores l -> cp_from C l /\ cset C l = C.
+Proof.
+  induction l as [|e l IH]; intros C H; simpl; [auto|].
+  assert (is_res e = false) as He by (apply H; now left).
+  assert (nores l) as Hl by (intros x Hx; apply H; now right).
+  destruct (IH (cstep C e) Hl) as [A B]. unfold cset in *. simpl.
+  assert (cstep C e = C) as Ec by (destruct e; try reflexivity; discriminate). rewrite Ec in *.
+  split; [|exact B]. split; [destruct e; try exact I; discriminate | exact A].
+Qed.
+
+Lemma cp_from_spec pre : forall C l j t post, cp_from C l -> l = pre ++ ECopy j t :: post ->
+  In j C \/ exists i, In (EClone i j) pre.
+Proof.
+  induction pre as [|e pre IH]; intros C l j t post H ->; simpl in H.
+  - left. exact (proj1 H).
+  - destruct H as [_ H]. destruct (IH _ _ _ _ _ H eq_refl) as [H1|[i H1]].
+    + destruct e; simpl in H1; auto. destruct H1 as [<-|H1]; [right; eexists; now left | now left].
+    + right. exists i. now right.
+Qed.
+
+Lemma pbt_on_result_stack p s i r s' d cl : pbt_on_result p s i r = (s', d, cl) ->
+  pb_stack s' = match cl with Some j => j :: pb_stack s | None => pb_stack s end.
+Proof.
+  destruct r as [[cost score] choice]. unfold pbt_on_result.
+  destruct (pbt_find (pb_trials s) i); [|intros E; injection E as <- _ <-; reflexivity].
+  destruct (Qleb (pp_max_t p) cost); [intros E; injection E as <- _ <-; reflexivity|].
+  destruct (Qltb _ _); [intros E; injection E as <- _ <-; reflexivity|].
+  destruct (quantiles _ _) as [lower upper].
+  destruct (mem_Z i lower); [|intros E; injection E as <- _ <-; reflexivity].
+  destruct upper; intros E; injection E as <- _ <-; reflexivity.
+Qed.
+
+Lemma delete_list_nores w : forall l b, nores (snd (delete_list b l w)).
+Proof.
+  induction l as [|i l IH]; intros b; simpl; [apply nores_nil|].
+  specialize (IH {| ids := ids b; stat := stat b; deleted := i :: deleted b |}).
+  destruct (delete_list _ l w) as [b2 e2]. simpl in *. apply nores_cons; [reflexivity|exact IH].
+Qed.
+
+Lemma b_stop_nores c b i w : nores (snd (b_stop c b i w)).
+Proof.
+  rewrite b_stop_events. destruct (delete_checkpoints c); repeat (apply nores_cons; [reflexivity|]); apply nores_nil.
+Qed.
+
+Section PbtStack.
+  Variable p : pbt_prm.
+  Variable c : cfg.
+  Let sch := pbt_sched_unfixed p.
+  Local Arguments b_start : simpl never.
+  Local Arguments b_resume : simpl never.
+  Local Arguments new_trial_id : simpl never.
+
+  Definition SInv (C : list Z) (s : pbt) : Prop := incl (pb_stack s) C.
+
+  Lemma pbt_process_results_cp compl : forall rs s b done C s' b' done' ev, SInv C s ->
+    process_results sch c s b done compl rs = (s', b', done', ev) ->
+    cp_from C ev /\ SInv (cset C ev) s'.
+  Proof.
+    induction rs as [|[i r] rs IH]; intros s b done C s' b' done' ev HI E; cbn [process_results] in E.
+    - injection E as <- <- <- <-. simpl. auto.
+    - destruct (mem_Z i done); [eapply IH; eauto|].
+      destruct (on_result sch s i r) as [[s1 d] cl] eqn:Eo.
+      pose proof (pbt_on_result_stack p s i r s1 d cl Eo) as Hst.
+      assert (SInv (cset C (clone_ev i cl)) s1) as HI1.
+      { unfold SInv. rewrite Hst. destruct cl as [j|]; simpl; [|exact HI].
+        intros x [<-|Hx]; [now left | right; now apply HI]. }
+      assert (forall tl b1 dn1 evs, nores tl ->
+                process_results sch c s1 b1 dn1 compl rs = (s', b', done', evs) ->
+                cp_from C (EDecision i d :: clone_ev i cl ++ tl ++ evs) /\
+                SInv (cset C (EDecision i d :: clone_ev i cl ++ tl ++ evs)) s') as K.
+      { intros tl b1 dn1 evs Htl E1.
+        destruct (nores_cp tl (cset C (clone_ev i cl)) Htl) as [A B].
+        assert (cset C (EDecision i d :: clone_ev i cl ++ tl) = cset C (clone_ev i cl)) as EC.
+        { change (EDecision i d :: clone_ev i cl ++ tl) with ([EDecision i d] ++ clone_ev i cl ++ tl).
+          rewrite !cset_app. simpl. exact B. }
+        replace (EDecision i d :: clone_ev i cl ++ tl ++ evs) with ((EDecision i d :: clone_ev i cl ++ tl) ++ evs)
+          by (simpl; now rewrite <- app_assoc).
+        rewrite cp_from_app, cset_app, EC.
+        destruct (IH _ _ _ _ _ _ _ _ HI1 E1) as [A1 B1]. split; [|exact B1]. split; [|exact A1].
+        simpl. split; [exact I|]. rewrite cp_from_app. split; [|exact A].
+        destruct cl; simpl; auto. }
+      destruct d; unfold b_pause in E; cbn beta iota zeta in E.
+      + destruct (process_results sch c s1 b done compl rs) as [[[s2 b2] d2] evs] eqn:E1.
+        injection E as <- <- <- <-. exact (K [] b done evs nores_nil E1).
+      + destruct (process_results sch c s1 (set_status b i Paused) (i :: done) compl rs) as [[[s2 b2] d2] evs] eqn:E1.
+        injection E as <- <- <- <-.
+        exact (K [EPause i] _ _ evs (nores_cons (EPause i) [] eq_refl nores_nil) E1).
+      + destruct (mem_Z i compl); cbn beta iota zeta in E.
+        * destruct (process_results sch c s1 b (i :: done) compl rs) as [[[s2 b2] d2] evs] eqn:E1.
+          injection E as <- <- <- <-. exact (K [] b (i :: done) evs nores_nil E1).
+        * pose proof (b_stop_nores c b i WStop) as Hn. destruct (b_stop c b i WStop) as [bs es]. cbn beta iota zeta in E.
+          destruct (process_results sch c s1 bs (i :: done) compl rs) as [[[s2 b2] d2] evs] eqn:E1.
+          injection E as <- <- <- <-. exact (K es bs (i :: done) evs Hn E1).
+  Qed.
+
+  Lemma pbt_schedule_cp : forall gs s b run C s' b' run' ex er ev, SInv C s ->
+    schedule sch s b run gs = (s', b', run', ex, er, ev) ->
+    cp_from C ev /\ cset C ev = C /\ SInv C s'.
+  Proof.
+    induction gs as [|g gs IH]; intros s b run C s' b' run' ex er ev HI E.
+    - simpl in E. injection E as <- <- <- <- <- <-. simpl. auto.
+    - cbn [schedule] in E.
+      destruct (suggest sch s (new_trial_id b) g) as [s1 sg] eqn:Es.
+      simpl in Es. unfold pbt_suggest in Es.
+      destruct (pb_stack s) as [|j st] eqn:Est; simpl in Es; injection Es as <- <-.
+      + pose proof (b_start_events b None) as He. destruct (b_start b None) as [b1 e].
+        destruct (schedule sch _ b1 (new_trial_id b :: run) gs) as [[[[[s2 b2] r2] ex2] er2] evs] eqn:E1.
+        injection E as <- <- <- <- <- <-. simpl in He. subst e.
+        assert (SInv C {| pb_trials := pb_trials s ++ [{| pt_id := new_trial_id b; pt_score := None; pt_last := 0; pt_stopped := false |}];
+                          pb_stack := [] |}) as HI1 by (intros x []).
+        destruct (IH _ _ _ _ _ _ _ _ _ _ HI1 E1) as [A [B Cc]]. simpl. repeat split; auto.
+      + pose proof (b_start_events b (Some j)) as He. destruct (b_start b (Some j)) as [b1 e].
+        destruct (schedule sch _ b1 (new_trial_id b :: run) gs) as [[[[[s2 b2] r2] ex2] er2] evs] eqn:E1.
+        injection E as <- <- <- <- <- <-. simpl in He. subst e.
+        assert (SInv C {| pb_trials := pb_trials s ++ [{| pt_id := new_trial_id b; pt_score := None; pt_last := 0; pt_stopped := false |}];
+                          pb_stack := st |}) as HI1.
+        { intros x Hx. apply HI. rewrite Est. now right. }
+        destruct (IH _ _ _ _ _ _ _ _ _ _ HI1 E1) as [A [B Cc]]. simpl. repeat split; auto.
+        apply HI. rewrite Est. now left.
+  Qed.
+
+  Lemma pbt_loop_end_cp s b choice C : let r := loop_end sch c s b choice in
+    fst (fst r) = s /\ cp_from C (snd r) /\ cset C (snd r) = C.
+  Proof.
+    unfold loop_end. simpl.
+    assert (forall b l w, cp_from C (snd (delete_list b l w)) /\ cset C (snd (delete_list b l w)) = C) as Hd
+      by (intros; apply nores_cp, delete_list_nores).
+    destruct (remove_callback c); simpl.
+    - destruct (speculative c); simpl; [|auto].
+      specialize (Hd b (filter (fun _ => false) choice) WSpec).
+      destruct (delete_list b _ WSpec) as [b2 e2]. simpl in *. tauto.
+    - destruct (speculative c); simpl; [|auto].
+      specialize (Hd b (filter (fun _ => false) choice) WSpec).
+      destruct (delete_list b _ WSpec) as [b2 e2]. simpl in *. tauto.
+  Qed.
+
+  Lemma pbt_on_error_fold l : forall s : pbt, fold_left (on_error sch) l s = s.
+  Proof. induction l as [|i l IH]; intros s; simpl; [reflexivity|apply IH]. Qed.
+
+  Lemma pbt_iteration_cp C st it st' ev er : SInv C (sst st) -> iteration sch c st it = (st', ev, er) ->
+    cp_from C ev /\ SInv (cset C ev) (sst st').
+  Proof.
+    intros HI E. unfold iteration in E.
+    set (rs := filter _ (reports it)) in *. set (compl := filter _ (completed it)) in *. set (fl := filter _ (failed it)) in *.
+    destruct (process_results sch c (sst st) _ [] compl rs) as [[[s1 b1] done] ev1] eqn:E1.
+    destruct (pbt_process_results_cp _ _ _ _ _ _ _ _ _ _ HI E1) as [A1 B1].
+    rewrite pbt_on_error_fold in E.
+    destruct (exhausted st).
+    - destruct (pbt_loop_end_cp s1 b1 (spec_choice it) (cset C ev1)) as [L1 [L2 L3]].
+      destruct (loop_end sch c s1 b1 (spec_choice it)) as [[s3 b3] ev3]. simpl in *. subst s3.
+      injection E as <- <- <-. simpl. rewrite cp_from_app, cset_app, L3. tauto.
+    - destruct (schedule sch s1 b1 _ (sugg it)) as [[[[[s2 b2] run2] ex] er2] ev2] eqn:E2.
+      destruct (pbt_schedule_cp _ _ _ _ _ _ _ _ _ _ _ B1 E2) as [A2 [B2 C2]].
+      destruct er2.
+      + injection E as <- <- <-. simpl. rewrite cp_from_app, cset_app, B2. tauto.
+      + destruct (pbt_loop_end_cp s2 b2 (spec_choice it) (cset C ev1)) as [L1 [L2 L3]].
+        destruct (loop_end sch c s2 b2 (spec_choice it)) as [[s3 b3] ev3]. simpl in *. subst s3.
+        injection E as <- <- <-. simpl. rewrite !cp_from_app, !cset_app, B2, L3. tauto.
+  Qed.
+
+  Lemma pbt_run_cp : forall its C st, SInv C (sst st) -> cp_from C (run sch c st its).
+  Proof.
+    induction its as [|it its IH]; intros C st HI; cbn [run].
+    - apply nores_cp, finish_nores.
+    - destruct (iteration sch c st it) as [[st' ev] er] eqn:E.
+      destruct (pbt_iteration_cp _ _ _ _ _ _ HI E) as [A B].
+      rewrite cp_from_app. split; [exact A|].
+      destruct er; [apply nores_cp, finish_nores | now apply IH].
+  Qed.
+
+  Theorem pbt_copy_after_clone_decision : forall its pre j t post,
+    run sch c (init pbt0) its = pre ++ ECopy j t :: post -> exists i, In (EClone i j) pre.
+  Proof.
+    intros its pre j t post E.
+    assert (SInv [] (sst (init pbt0))) as HI by (intros x []).
+    destruct (cp_from_spec pre [] _ j t post (pbt_run_cp its [] _ HI) E) as [[]|H]. exact H.
+  Qed.
+End PbtStack.
+
+Lemma deleted_in_false pre j : (forall w, ~ In (EDelete j w) pre) -> deleted_in pre j = false.
+Proof.
+  intros H. destruct (deleted_in pre j) eqn:E; [|reflexivity].
+  destruct (deleted_in_split _ _ E) as [a [w [b ->]]]. exfalso. apply (H w). apply in_or_app. right. now left.
+Qed.
+
+(* localisation: a clone is started from a deleted checkpoint ONLY IF stop_trial was called for the
+   source (which only happens right after the scheduler's STOP for it) between the clone decision
+   that pushed it and the clone's start; at the clone decision its checkpoint had never been deleted *)
+Theorem pbt_unfixed_localised : forall p c its pre j t post,
+  remove_callback c = false -> speculative c = false ->
+  run (pbt_sched_unfixed p) c (init pbt0) its = pre ++ ECopy j t :: post ->
+  deleted_in pre j = true ->
+  exists p1 i p2, pre = p1 ++ EClone i j :: p2 /\ deleted_in p1 j = false /\ In (EStop j) p2.
+Proof.
+  intros p c its pre j t post Hr Hs E Hd.
+  destruct (pbt_copy_after_clone_decision p c its pre j t post E) as [i Hi].
+  apply in_split in Hi as [p1 [p2 ->]]. exists p1, i, p2. split; [reflexivity|].
+  assert (deleted_in p1 j = false) as Hp1.
+  { apply deleted_in_false. rewrite <- app_assoc in E. simpl in E.
+    exact (pbt_unfixed_source_alive_at_decision p c its p1 i j _ Hs E). }
+  split; [exact Hp1|].
+  (* the deletion lies in p2 *)
+  unfold deleted_in in Hd. rewrite existsb_app in Hd. fold (deleted_in p1 j) in Hd. rewrite Hp1 in Hd. simpl in Hd.
+  fold (deleted_in p2 j) in Hd. destruct (deleted_in_split _ _ Hd) as [a [w [b ->]]].
+  assert (run (pbt_sched_unfixed p) c (init pbt0) its = (p1 ++ EClone i j :: a) ++ EDelete j w :: (b ++ ECopy j t :: post)) as E'.
+  { rewrite E. rewrite <- !app_assoc. simpl. rewrite <- !app_assoc. reflexivity. }
+  pose proof (delete_only_when_allowed _ c _ _ _ _ _ _ E') as HA.
+  destruct w; simpl in HA.
+  - destruct HA as [_ [q [cl Hq]]].
+    destruct (exists_last (l := EClone i j :: a)) as [a' [x Ha]]; [discriminate|].
+    assert (x = EStop j) as ->.
+    { rewrite Ha in Hq. rewrite app_assoc in Hq.
+      change (q ++ EDecision j STOP :: clone_ev j cl ++ [EStop j]) with (q ++ (EDecision j STOP :: clone_ev j cl) ++ [EStop j]) in Hq.
+      rewrite app_assoc in Hq. apply app_inj_tail in Hq as [_ Hq]. exact Hq. }
+    destruct a' as [|y a']; simpl in Ha; [discriminate|]. injection Ha as _ Ha. subst a.
+    apply in_or_app. left. apply in_or_app. right. now left.
+  - destruct HA as [HA _]. congruence.
+  - congruence.
+  - destruct HA as [_ HA]. exfalso. apply in_split in HA as [x [y Hxy]].
+    rewrite Hxy in E'. rewrite <- app_assoc in E'. simpl in E'.
+    destruct (after_stop_all_only_final _ c _ _ _ _ E') as [Haf _].
+    apply Forall_app in Haf as [_ Haf]. inversion Haf as [|? ? _ Haf']; subst.
+    apply Forall_app in Haf' as [_ Haf']. inversion Haf'; subst. discriminate.
 Qed.
